@@ -716,6 +716,23 @@ def _hook_body(target, hook, lspecs):
     emit('L', h=hook, layer=name, ph='exit')
 
 
+class _EqHook:
+    """a hook given as a callable object with value equality: the hooks of different layers compare equal (they are still
+    different hooks of different layers)"""
+
+    def __init__(self, obj, hook, lspecs):
+        self.obj, self.hook, self.lspecs = obj, hook, lspecs
+
+    def __call__(self):
+        return _hook_body(self.obj, self.hook, self.lspecs)
+
+    def __eq__(self, other):
+        return isinstance(other, _EqHook) and other.hook == self.hook
+
+    def __hash__(self):
+        return hash(self.hook)
+
+
 def build_layers(spec, modname):
     """return list of layer objects (index-aligned with spec['layers'])"""
     lspecs = {L['name']: L for L in spec['layers']}
@@ -738,7 +755,10 @@ def build_layers(spec, modname):
         if kind == 'inst':
             obj = (FalsyInstLayer if L.get('falsy') else InstLayer)(L['name'], L.get('modp', '') + modname, bases)
             for h in L['hooks']:
-                setattr(obj, h, (lambda _o=obj, _h=h: _hook_body(_o, _h, lspecs)))
+                if L.get('eq_hooks'):
+                    setattr(obj, h, _EqHook(obj, h, lspecs))
+                else:
+                    setattr(obj, h, (lambda _o=obj, _h=h: _hook_body(_o, _h, lspecs)))
         layers.append(obj)
     return layers
 
